@@ -1353,6 +1353,33 @@ def c20_case(res: StreamResult | None, script: Script | None, base: Path, case: 
             what = (what + "; " if what else "") + "the results file is gone"
         if what:
             failures.append((what, k, key))
+        # ---- the NEXT save after the interruption (same directory, with whatever the interrupted one left behind): it completes,
+        # and afterwards the file holds every earlier run, the new one if it had been installed, and the follow-up run.  Tried after
+        # every interruption that left a temporary ending in '}' (it looks complete) and after a sample of the others.
+        left = (others or {}).get(TARGET + ".tmp")
+        if what is None and k < len(ops) and not case.get("sparse") and ((left is not None and left.rstrip().endswith(b"}")) or k % 7 == 3):
+            work = base / f"{tag}_w"
+            follow = None
+            try:
+                save_json(work / TARGET, "after-the-crash", det_output({"rows": 2, "cols": 2, "seed": 99}))
+                j2 = raw_json((work / TARGET).read_bytes().decode())
+                expect_names = list(old_json) + ([case["name"]] if cur == new and case["name"] not in old_json else []) + ["after-the-crash"]
+                missing = [n_ for n_ in expect_names if n_ not in j2]
+                if missing:
+                    follow = f"the save that FOLLOWED an interruption after {k} operations completed, but the file lacks {missing}"
+            except Exception as e:   # noqa: BLE001
+                cur2 = (work / TARGET).read_bytes() if (work / TARGET).exists() else None
+                try:
+                    ok2 = cur2 is not None and all(n_ in raw_json(cur2.decode()) for n_ in old_json)
+                except Exception:    # noqa: BLE001
+                    ok2 = False
+                follow = (f"the save that FOLLOWED an interruption after {k} operations raised {type(e).__name__}: {str(e)[:80]}"
+                          + ("" if ok2 else "; the results file no longer parses / earlier runs are lost"))
+            if res is not None:
+                res.evaluations += 1
+                res.count("follow-up-save-after-crash")
+            if follow:
+                failures.append((follow, k, "save_json:follow-up-after-crash"))
     # ---- a disk that fills up: from some write on EVERY write fails with ENOSPC.  Whether save_json raises or returns, the results
     # file must be the previous one or the complete new one.
     wr_ops = [k for k, o in enumerate(ops) if o[0] == "w"]
